@@ -74,7 +74,11 @@ pub enum MatchTypePattern {
 
 impl MatchTypePattern {
     pub fn from_type_str(s: &str) -> Self {
-        match s {
+        Self::try_from_type_str(s).unwrap_or_else(|| panic!("Unknown type"))
+    }
+
+    pub fn try_from_type_str(s: &str) -> Option<Self> {
+        Some(match s {
             "int" => MatchTypePattern::Int,
             "uint" => MatchTypePattern::Uint,
             "float" | "double" => MatchTypePattern::Float,
@@ -83,11 +87,11 @@ impl MatchTypePattern {
             "bytes" => MatchTypePattern::Bytes,
             "list" => MatchTypePattern::List,
             "object" => MatchTypePattern::Object,
-            "null" => MatchTypePattern::Null,
+            "null" | "null_type" => MatchTypePattern::Null,
             "timestamp" => MatchTypePattern::Timestamp,
             "duration" => MatchTypePattern::Duration,
-            _ => panic!("Unknown type"),
-        }
+            _ => return None,
+        })
     }
 }
 
